@@ -17,6 +17,11 @@ def build_rec(cls, fields):
         for _ in range(n - rem):
             next(it)
         return RepeatItem(it, n)
+    if cls == 'node::End':
+        from chameleon import nodes
+        return nodes.End(fields['name'], fields['space'], fields['prefix'], fields['suffix'])
+    if cls == 'compiler.py::Compiler':
+        return None
     if cls == 'builtins::ListIter':
         return dict(fields)
     raise Unbuildable('no builder for %s' % cls)
